@@ -77,6 +77,7 @@ def _verify_one(args):
             obs = []
             for (nm, ok, line, text) in STATICS[qualname[7:]](repo):
                 ob = _Ob("%s/static/%s" % (qualname, nm), "static", z3.BoolVal(bool(ok)), [], line, text)
+                ob.inconclusive = ok is None      # None: the syntactic obligation does not recognise the code's shape
                 ob.defs = []
                 obs.append(ob)
         elif qualname.startswith("effects:"):
